@@ -54,6 +54,18 @@ CHECKS = {
    "explicit-state search over signing histories (Sign with 3 key sizes, re-sign, serialise/re-parse) on the real image object from 11 initial images, state = output bytes + in-place signature count, invariants checked by an independent reader in every state",
    "All histories up to the depth bound are executed on the real object; in every reached state the serialised file is inspected byte-wise by an independent reader (preserved prefix, padding, alignment, directory entry, dwLength, revision/type, embedded digest = digest of the file itself) and the library's own Hash/Verify/Signatures views are compared with the signing history. Exhaustive up to the depth bound.",
    "Depth 3 (quick) / 6 (thorough); three key sizes; frozen clock; refpe/refp7 trusted.", "DESIGN.md section 4 C03"),
+ "C05": ("exploration", "E-shape",
+   "bounded exhaustive product (content length x content type x key size x issuer form x serial form) of library-produced SignedData, each judged by three independent verifiers (from-the-RFC refp7, go.mozilla.org/pkcs7, openssl CLI) with accept/reject content pairs",
+   "Every blob of the product is produced by the real signer and must be accepted with its content and rejected with changed/longer content by independent implementations that share no code with the library; field-level conditions of the statement are checked on an independent parse. Exhaustive over the stated alphabets.",
+   "Alphabet boundaries (DER length forms, SHA-256 block sizes, high-bit/long serials, long and multi-valued issuers); OID arcs limited to 2^31-1 because encoding/asn1-based verifiers cannot read larger ones; openssl only for the data content type.", "DESIGN.md section 4 C05"),
+ "C06": ("exploration", "E-shape + controlled clock",
+   "bounded exhaustive product (names x payloads x attribute masks incl. all 256 x GUIDs x keys; clock instants x time zones injected through the vtime shim) with a layout oracle and positive/negative detached verification over the exact signed buffer",
+   "Every update of the product is produced by the real SignEFIVariable under a harness-decided clock and zone, decoded by an independent reader and verified by an independent PKCS#7 verifier over the rebuilt buffer; 16 near-miss buffers (each component changed, reordered, dropped, terminator added) must all be rejected. Exhaustive over the stated alphabets.",
+   "ASCII names only (statement's domain); time zone configuration is modelled by the Location of the injected instant, not by the process TZ variable.", "DESIGN.md section 4 C06"),
+ "C16": ("exploration", "E-shape over producer configurations",
+   "full product of OpenSSL producer configurations (smime/cms x smimecap x detached x certs x cades x content x key x certificate) generated at check time plus all shipped third-party artefacts; parse + verify matrix + byte-exact attribute re-encoding oracle",
+   "Every configuration's output is parsed and verified by the real library against the signer's, a foreign and a same-issuer+serial-other-key certificate, and the parsed attributes are re-encoded and compared byte for byte with the signed bytes cut out of the blob by an independent walker. Exhaustive over the configuration product.",
+   "OpenSSL as installed is the only live producer (sbsign/sbvarsign only as shipped fixtures; osslsigncode/pesign not installed).", "DESIGN.md section 4 C16"),
 }
 
 NOT_YET = "check not built yet in this round (planned, see DESIGN.md section 4); no claim is made"
